@@ -503,6 +503,10 @@ pub fn work(prop: &str, tier: u8, seed: u64, idx: usize) -> Rec {
         if idx % 4 == 0 && rec.viol.is_empty() && rec.status == "ok" {
             branch_limit_crash_point(&p, &mut rec, tier);
         }
+        // under valgrind the (expensive) probe runs after every 8th program only
+        if std::env::var("LV_UNDER_VALGRIND").is_ok() && idx % 8 != 0 {
+            return rec;
+        }
         let after = probe();
         rec.runs += 2;
         rec.iters += after.0.len() as u64;
